@@ -65,7 +65,15 @@ def rule_I(ctx):
     r = w.range_info(lo.iter, pre)
     iv = lo.target.id
     st = State({iv: Rat.atom(iv)})
-    outs = [o for o in w.run(lo.body, st) if o.kind == 'fall']
+    outs = [o for o in w.run(lo.body, st) if o.kind in ('fall', 'continue')]
+    skipping = [o for o in outs if not any(e.kind == 'store' for e in o.state.events)]
+    if skipping and len(skipping) < len(outs):
+        for o in skipping[:1]:
+            ctx.violation('C17.I', f, 'every index i >= 1 receives Y[i] = Y[i-1] + X[i]',
+                          {'path that stores nothing': [repr(c) for c, _ in o.state.conds],
+                           'why': 'the slot keeps its initial 0: the running sum falls back to 0 at that fix and restarts (the abscissa decreases, the last value is not the length)'},
+                          node=o.node if o.node is not None else lo, key='skip-store')
+        outs = [o for o in outs if o not in skipping]
     if len(outs) != 1:
         raise shape_error('Integrator loop body not straight-line', f.loc(lo))
     sts = [e for e in outs[0].state.events if e.kind == 'store']
@@ -156,6 +164,16 @@ def rule_S(ctx):
             return any(cj.kind == 'cmp' and cj.op == op and isinstance(cj.a, Rat) and isinstance(cj.b, Rat) and
                        (w.rel.is_zero((cj.a - cj.b) - (a - b)) or w.rel.is_zero((cj.a - cj.b) + (a - b))) for cj in conds)
         i_ = Rat.atom(i)
+        only_size = bool(conds) and all(cj.kind == 'cmp' and isinstance(cj.a, Rat) and isinstance(cj.b, Rat) and
+                                        set((cj.a - cj.b).atoms()) == {'%s.size()' % tr} for cj in conds)
+        if only_size:
+            import operator as _op
+            ops = {'<': _op.lt, '<=': _op.le, '==': _op.eq, '!=': _op.ne}
+            hit = [n_ for n_ in (2, 3, 4, 10) if all(ops[cj.op]((cj.a - cj.b).subst('%s.size()' % tr, Rat.const(n_)).constval(), 0) for cj in conds)]
+            ctx.check(not hit, 'C17.S', f, 'an early answer for degenerate tracks concerns only tracks of fewer than 2 fixes',
+                      witness={'guard': pathtxt, 'returned': vr(o.value), 'track sizes caught': hit,
+                               'why': 'a track of 2 fixes has a well-defined one-sided speed at both ends: d(0,1)/(t1-t0)'}, node=o.node, key='degenerate')
+            continue
         if has('==', i_, Rat.const(0)):
             arm, hi, lo = 'first', Rat.const(1), Rat.const(0)
         elif has('==', i_, size - Rat.const(1)):
@@ -174,10 +192,14 @@ def rule_S(ctx):
         is_nan = vr(v) in ('NAN', 'nan', "float('nan')", 'math.nan', 'np.nan')
         zero_guard = has('==', dt, Rat.const(0))
         nonzero_guard = has('!=', dt, Rat.const(0))
-        other_tests = [repr(cj) for cj in conds if not (cj.kind == 'cmp' and cj.op in ('==', '!=') and
-                                                        ((isinstance(cj.a, Rat) and isinstance(cj.b, Rat)) and
-                                                         (w.rel.is_zero((cj.a - cj.b) - dt) or w.rel.is_zero((cj.a - cj.b) + dt) or
-                                                          i in (cj.a - cj.b).atoms())))]
+        def _expected(cj):
+            if not (cj.kind == 'cmp' and isinstance(cj.a, Rat) and isinstance(cj.b, Rat)):
+                return False
+            d_ = cj.a - cj.b
+            if set(d_.atoms()) == {'%s.size()' % tr}:
+                return True                      # complement of a degenerate-size guard (checked on its own path)
+            return cj.op in ('==', '!=') and (w.rel.is_zero(d_ - dt) or w.rel.is_zero(d_ + dt) or i in d_.atoms())
+        other_tests = [repr(cj) for cj in conds if not _expected(cj)]
         if is_nan:
             ctx.check(zero_guard and not other_tests, 'C17.S', f,
                       '%s fix: NaN is returned exactly when the elapsed time between fixes %s and %s is zero' % (arm, vr(hi), vr(lo)),
